@@ -85,6 +85,7 @@ Inductive event :=
 | ECancel (k : nat)                           (* the context of caller k of the poll in flight ends *)
 | EReq (n : name) (fail full : bool)          (* the poll's request for n is answered now *)
 | EEnd                                        (* the poll's last request has been answered *)
+| EEndF                                       (* the same, but the Cache.Write of applyUpdates (if any) FAILS *)
 | ESrv (o : sop)                              (* the service changes *)
 | ESecret (n : name)                          (* Store.Secret(n) *)
 | ERead (n : name) (now_s : Z)                (* a handle for n is called *)
@@ -96,11 +97,27 @@ Inductive out :=
 | ORes (ok : bool)                            (* what a Refresh call returns when the poll ends: nil / the poll's error *)
 | OCtx                                        (* a Refresh call returns its own context's error *)
 | OFlush (d : list (doc_entry V))             (* a Cache.Write *)
+| OFlushF (d : list (doc_entry V))            (* a Cache.Write that failed (nothing reaches the cache) *)
 | OHandle (h : option bool)                   (* Secret: Some true handle, Some false nil, None panic *)
 | OVal (v : option V)                         (* bytes returned by a handle *)
 | OLookup (ok : bool).
 
 Definition flush_out (fx : list (effect V)) : list out := map (fun '(Flush d) => OFlush d) fx.
+
+(* the end of a poll (store.go:295-302) *)
+Definition end_step (w : world) : world * list out :=
+  let '(WD st sv ofl) := w in
+  match ofl with
+  | Some fl => let '(st', fx, ok) := finish st fl in
+               (WD st' sv None, flush_out fx ++ repeat (ORes ok) (waiting fl))
+  | None => (w, [])
+  end.
+(* ... when the write fails: applyUpdates has installed everything and returns the cache's error,
+   which Refresh hands to every caller (store.go:299-301, 631): the values ARE installed, the
+   callers get an error, the cache keeps its old contents *)
+Definition is_flush (o : out) : bool := match o with OFlush _ => true | _ => false end.
+Definition failw (o : out) : out :=
+  match o with OFlush d => OFlushF d | ORes _ => ORes false | x => x end.
 
 Definition step (w : world) (e : event) : world * list out :=
   let '(WD st sv ofl) := w in
@@ -128,12 +145,8 @@ Definition step (w : world) (e : event) : world * list out :=
        [OReq ov (match ov with Some v => answer i n v | None => RErr end)])
     | None => (w, [])
     end
-  | EEnd =>
-    match ofl with
-    | Some fl => let '(st', fx, ok) := finish st fl in
-                 (WD st' sv None, flush_out fx ++ repeat (ORes ok) (waiting fl))
-    | None => (w, [])
-    end
+  | EEnd => end_step w
+  | EEndF => let '(w', o) := end_step w in if existsb is_flush o then (w', map failw o) else (w', o)
   | ESrv o => (WD st (sstep sv o) ofl, [])
   | ESecret n => let '(st', h) := secret st n in (WD st' sv ofl, [OHandle h])
   | ERead n now_s => let '(st', v) := read st n now_s in (WD st' sv ofl, [OVal v])
@@ -167,7 +180,7 @@ Fixpoint collect (sv : server) (d : bool) (evs : list event) : list (name * inst
   | ECancel O :: r => collect sv true r
   | _ :: r => collect sv d r
   end.
-Definition is_end (e : event) : bool := match e with EEnd => true | _ => false end.
+Definition is_end (e : event) : bool := match e with EEnd | EEndF => true | _ => false end.
 
 (* what the last Cache.Write of a run left in the cache (c = what it held before) *)
 Definition cache_after (c : list (doc_entry V)) (outs : list out) : list (doc_entry V) :=
@@ -207,8 +220,39 @@ Definition cadence_ok (i t0 : Z) (l : list Z) : bool :=
   | t1 :: r => period_ok i (t1 - t0) && ticks_from t1 (t1 - t0) r
   end.
 
+(* ---- polls that take time.  The loop (store.go:563-591) waits on a time.Ticker created once with
+   the period p: ticks fire on the fixed grid t0 + k*p whatever the receiver does, the channel
+   buffers ONE tick (further ticks that fire while it is full are dropped), `Done` does nothing for
+   the standard ticker.  So a poll that starts at s and lasts d is followed by a poll that starts
+   at the first grid tick after s if the loop is idle again by then, and otherwise immediately
+   when the running poll ends (the buffered tick). *)
+Definition next_start (t0 p s d : Z) : Z :=
+  let f := (s + d)%Z in
+  let g := (t0 + ((s - t0) / p + 1) * p)%Z in
+  if (g <=? f)%Z then f else g.
+Fixpoint starts_from (t0 p s : Z) (ds : list Z) : list Z :=
+  match ds with [] => [s] | d :: r => s :: starts_from t0 p (next_start t0 p s d) r end.
+(* start instants of the polls of a loop started at t0, given the durations of the polls *)
+Definition starts (t0 p : Z) (ds : list Z) : list Z := starts_from t0 p (t0 + p)%Z ds.
+
+(* monitor on the observed (start, end) instants of consecutive polls *)
+Fixpoint follows (t0 p s e : Z) (l : list (Z * Z)) : bool :=
+  match l with
+  | [] => true
+  | (s', e') :: r => (s' =? next_start t0 p s (e - s))%Z && (s' <=? e')%Z && follows t0 p s' e' r
+  end.
+Definition cadence2_ok (i t0 : Z) (l : list (Z * Z)) : bool :=
+  match l with
+  | [] => false
+  | (s1, e1) :: r => period_ok i (s1 - t0) && (s1 <=? e1)%Z && follows t0 (s1 - t0) s1 e1 r
+  end.
+(* durations of all polls but the last *)
+Fixpoint durs_init (s e : Z) (l : list (Z * Z)) : list Z :=
+  match l with [] => [] | (s', e') :: r => (e - s)%Z :: durs_init s' e' r end.
+
 Arguments SDel {V}.
 Arguments EEnd {V}.
+Arguments EEndF {V}.
 Arguments EShutdown {V}.
 Arguments ERefresh {V}.
 Arguments ECancel {V}.
